@@ -233,6 +233,9 @@ func (w *WalkEnv) install() {
 	in.Models["valid.GetJoinFieldErr"] = func(in *Interp, site ssa.Instruction, cc *ssa.CallCommon, a []AVal) (AVal, bool) {
 		return Tok{Dom: "clause", Name: "field", Args: a}, true
 	}
+	in.Models["errors.New"] = func(in *Interp, site ssa.Instruction, cc *ssa.CallCommon, a []AVal) (AVal, bool) {
+		return Tok{Dom: "err", Name: "new", Args: a}, true // never nil
+	}
 	retype := func(cc *ssa.CallCommon) types.Type {
 		r := cc.Signature().Results()
 		if r.Len() == 1 {
